@@ -280,6 +280,32 @@ def env_generator_attrs(ctx: Ctx):
     units.obligations(ctx, "C18.f", "MTVRPGenerator._generate", gsl_.it, gsl_.fr, gsl_.where, 15, declared_out=units.MTVRP_CELLS)
 
 
+def job_span_forms(end, start):
+    """-> (ok_end, cumsum node or None, pe, ok_start, why_start): end = cumsum(n_ops, 1) - 1 ; start = cat((zeros, end[:, :-1] + 1), 1)"""
+    pe = nf.poly(end)
+    cums = [a for a in pe.atoms() if (a.op == "meth" and a.args[1] == "cumsum") or nf._fn(a) == "torch.cumsum"]
+    ok_end = len(cums) == 1 and pe == nf.Poly.atom(cums[0]) - nf.Poly.const(1) and nf.axis_is(cums[0], 1)
+    st = nf.strip(start)
+    ok_st, why = False, "start_op_per_job is not cat((zeros, end[:, :-1] + 1), 1)"
+    if nf._fn(st) in ("torch.cat", "torch.concat") and nf.axis_is(st, 1):
+        items = nf._seq_items(st.args[1])
+        if items and len(items) == 2:
+            z = nf.strip(items[0])
+            zero = nf._fn(z) in ("torch.zeros", "torch.zeros_like")
+            p1 = nf.poly(items[1])
+            subs = [a for a in p1.atoms() if a.op == "sub"]
+            shifted = False
+            if len(subs) == 1 and p1 == nf.Poly.atom(subs[0]) + nf.Poly.const(1):
+                sb = subs[0]
+                idx = sb.args[1].args if sb.args[1].op == "tuple" else (sb.args[1],)
+                last = idx[-1]
+                drop_last = last.op == "slice" and vg.is_none(last.args[0]) and vg.is_const(last.args[1], -1) and vg.is_none(last.args[2]) and len(idx) == 2
+                shifted = drop_last and nf.poly(sb.args[0]) == pe
+            ok_st = zero and shifted
+            why = f"start = cat((zeros: {zero}, end[:, :-1] + 1: {shifted}), 1)"
+    return ok_end, (cums[0] if cums else None), pe, ok_st, why
+
+
 def job_op_ranges(ctx: Ctx):
     """C18.k FJSP / JSSP: the operations of job j are the index range [start_j, end_j] with
     end = cumsum(n_ops) - 1, start_0 = 0, start_j = end_{j-1} + 1 and n_ops = randint(min_ops, max_ops + 1): consecutive,
